@@ -190,6 +190,7 @@ struct Worlds {
     pa2: ExistenceProof,
     pm: ExistenceProof,
     pm2: ExistenceProof,
+    px: ExistenceProof,
     bank: Vec<u8>,
     bank2: Vec<u8>,
     app_hash: Vec<u8>,
@@ -265,6 +266,16 @@ fn worlds(rng: &mut StdRng) -> Worlds {
     let mt1 = tree(Fmt::Simple, &m1, rng);
     let mt2 = tree(Fmt::Simple, &m2, rng);
     let im = m1.iter().position(|x| x.0 == b"bank").unwrap();
+    // a tree of the node's own making holding ("bank" -> forged app root) among random leaves
+    let mut xl: Vec<(Vec<u8>, Vec<u8>)> = vec![(b"bank".to_vec(), mt2.root.clone())];
+    for n in ["acc", "gov", "staking"] {
+        if rng.gen_bool(0.6) {
+            xl.push((n.as_bytes().to_vec(), rng.r#gen::<[u8; 32]>().to_vec()));
+        }
+    }
+    xl.sort();
+    let xt = tree(Fmt::Simple, &xl, rng);
+    let ix = xl.iter().position(|x| x.0 == b"bank").unwrap();
     Worlds {
         addr_a,
         key_a,
@@ -277,6 +288,7 @@ fn worlds(rng: &mut StdRng) -> Worlds {
         pa2: t2.proofs[ia].clone(),
         pm: mt1.proofs[im].clone(),
         pm2: mt2.proofs[im].clone(),
+        px: xt.proofs[ix].clone(),
         bank: t1.root,
         bank2: t2.root,
         app_hash: mt1.root,
@@ -311,6 +323,7 @@ fn concrete_op(w: &Worlds, rc: &Value, rng: &mut StdRng) -> ProofOp {
         "PA2" => w.pa2.clone(),
         "PM" => w.pm.clone(),
         "PM2" => w.pm2.clone(),
+        "PX" => w.px.clone(),
         b => tool_error(&format!("base {b}")),
     };
     let sym_val = |x: &str| match x {
@@ -319,6 +332,7 @@ fn concrete_op(w: &Worlds, rc: &Value, rng: &mut StdRng) -> ProofOp {
         "VF" => w.vf.clone(),
         "Bank" => w.bank.clone(),
         "Bank2" => w.bank2.clone(),
+        "AppHash2" => w.app_hash2.clone(),
         x => tool_error(&format!("value {x}")),
     };
     let sym_key = |x: &str| match x {
